@@ -341,11 +341,11 @@ def real_process_supplement(rep):
     for point in ("idle_after_create", "setup_done", "step", "get_data"):
         try:
             r = subprocess.run([sys.executable, script, point], capture_output=True, text=True,
-                               timeout=60, env=dict(os.environ, VERIF_REPO=env.REPO))
+                               timeout=120, env=dict(os.environ, VERIF_REPO=env.REPO))
             line = (r.stdout.strip().splitlines() or ["no output"])[-1]
             ok = r.returncode == 0
         except subprocess.TimeoutExpired:
-            line, ok = "timeout after 60 s", False
+            line, ok = "timeout after 120 s", False
         out[point] = line
         if not ok:
             rep.report(dict(prop="C14", kind="real-process-fault-not-contained", cls=None,
